@@ -67,6 +67,64 @@ def const_int(op):
         return None
 
 
+def fmt_template(hexstr):
+    """Decode a core::fmt::Arguments template (nightly 1.97 encoding) into a list of
+    ('lit', text) / ('arg', index_or_None, flagsbyte) parts; None if malformed."""
+    try:
+        b = bytes.fromhex(hexstr)
+    except ValueError:
+        return None
+    out = []
+    i = 0
+    nxt = 0
+    while i < len(b):
+        n = b[i]
+        i += 1
+        if n == 0:
+            return out if i == len(b) else None
+        if n < 128:
+            out.append(("lit", b[i:i + n].decode("utf-8", "replace")))
+            i += n
+        elif n == 128:
+            ln = b[i] | (b[i + 1] << 8)
+            out.append(("lit", b[i + 2:i + 2 + ln].decode("utf-8", "replace")))
+            i += 2 + ln
+        elif n >= 0xC0:
+            if n & 1:
+                i += 4
+            if n & 2:
+                i += 2
+            if n & 4:
+                i += 2
+            idx = None
+            if n & 8:
+                idx = b[i] | (b[i + 1] << 8)
+                i += 2
+            if idx is None:
+                idx = nxt
+                nxt += 1
+            else:
+                nxt = idx + 1
+            out.append(("arg", idx, n))
+        else:
+            return None
+    return None
+
+
+def lits_strings(lits):
+    """All literal text carried by an arm's literal set: plain strings and the literal
+    pieces of format templates."""
+    out = []
+    for l in lits:
+        if l.startswith("s:"):
+            out.append(l[2:])
+        elif l.startswith("h:"):
+            t = fmt_template(l[2:])
+            if t is not None:
+                out.extend(x[1] for x in t if x[0] == "lit")
+    return out
+
+
 class Call:
     __slots__ = ("bb", "callee", "args", "dest", "target", "exp", "expname", "line", "body")
 
@@ -281,6 +339,87 @@ class Body:
                 st.pop()
         out.reverse()
         return out
+
+    # ---- single boolean flag refinement ---------------------------------------------------
+    def bool_flags(self):
+        """Named bool locals that are only ever assigned boolean constants."""
+        out = []
+        defs = self.defs()
+        for l, (ty, name) in enumerate(self.locals):
+            if ty != "bool" or not name:
+                continue
+            ds = defs.get(l, [])
+            if ds and all(d[0] == "stmt" and not d[3][1] and d[4][0] == "use" and d[4][1][0] == "k" for d in ds):
+                out.append(l)
+        return out
+
+    def reachable_with_flag(self, start, flag, avoid=()):
+        """Blocks reachable from `start` when the value of the bool local `flag` is tracked
+        (path-sensitive in that one variable only; prunes switch edges that contradict it)."""
+        avoid = set(avoid)
+        seen = set()
+        work = [(start, None)]
+        out = set()
+        while work:
+            bb, val = work.pop()
+            if (bb, val) in seen or bb in avoid:
+                continue
+            seen.add((bb, val))
+            out.add(bb)
+            derived = {}   # tmp local -> negated?
+            for s in self.blocks[bb]["s"]:
+                pl, rv = s[0], s[1]
+                if pl[1]:
+                    continue
+                if pl[0] == flag:
+                    if rv[0] == "use" and rv[1][0] == "k":
+                        val = 1 if rv[1][1].strip() == "const true" else 0
+                    else:
+                        val = None
+                    continue
+                if rv[0] == "use" and rv[1][0] != "k" and not rv[1][1][1]:
+                    src = rv[1][1][0]
+                    if src == flag:
+                        derived[pl[0]] = False
+                    elif src in derived:
+                        derived[pl[0]] = derived[src]
+                elif rv[0] == "un" and rv[1] == "Not" and rv[2][0] != "k" and not rv[2][1][1]:
+                    src = rv[2][1][0]
+                    if src == flag:
+                        derived[pl[0]] = True
+                    elif src in derived:
+                        derived[pl[0]] = not derived[src]
+            t = self.blocks[bb]["t"]
+            succs = self._succ[bb]
+            if t[0] == "switch" and val is not None and t[1][0] != "k" and not t[1][1][1]:
+                l = t[1][1][0]
+                neg = None
+                if l == flag:
+                    neg = False
+                elif l in derived:
+                    neg = derived[l]
+                if neg is not None:
+                    v = val if not neg else 1 - val
+                    tgt = None
+                    for sval, sbb in t[2]:
+                        if sval == str(v):
+                            tgt = sbb
+                    if tgt is None:
+                        tgt = t[3]
+                    succs = [tgt]
+            for s2 in succs:
+                work.append((s2, val))
+        return out
+
+    def must_pass(self, start, target, through):
+        """True if every CFG path start ->* target meets a block in `through`; refined by
+        every single-bool-flag abstraction (each only removes infeasible paths)."""
+        if target not in self.reachable(start, avoid=through):
+            return True
+        for f in self.bool_flags():
+            if target not in self.reachable_with_flag(start, f, avoid=through):
+                return True
+        return False
 
     # ---- calls -------------------------------------------------------------------------
     def calls(self, include_macro=True):
